@@ -34,6 +34,7 @@ pub fn plan(quick: bool) -> Vec<Part> {
     }
     for k in BIG_K {
         v.push(Part::new("C01", "catalogue", k, Space { segs: vec![catalogue(k)] }).dim("sub", &[0]));
+        v.push(Part::new("C01", "lifted", k, vcommon::families::lifted(k, !quick)).dim("sub", &[0]));
     }
     v
 }
